@@ -360,6 +360,8 @@ void TreeGraphImpl<GraphImpl>::propagateDirection_(Graph::NodeId node)
 template<class GraphImpl>
 void TreeGraphImpl<GraphImpl>::setFather(Graph::NodeId node, Graph::NodeId fatherNode)
 {
+  // checked before the current father is unlinked
+  GraphImpl::nodeMustExist_(fatherNode, "father node");
   if (hasFather(node))
     GraphImpl::unlink(getFatherOfNode(node), node);
   GraphImpl::link(fatherNode, node);
@@ -369,6 +371,8 @@ void TreeGraphImpl<GraphImpl>::setFather(Graph::NodeId node, Graph::NodeId fathe
 template<class GraphImpl>
 void TreeGraphImpl<GraphImpl>::setFather(Graph::NodeId node, Graph::NodeId fatherNode, Graph::EdgeId edgeId)
 {
+  // checked before the current father is unlinked
+  GraphImpl::nodeMustExist_(fatherNode, "father node");
   if (hasFather(node))
     GraphImpl::unlink(getFatherOfNode(node), node);
   GraphImpl::link(fatherNode, node, edgeId);
